@@ -52,7 +52,7 @@ def ir_execute(prop, descs, wd, nproc=16, timeout=900, trace_module="TraceIR.tla
 
 def ir_flow(prop, tier, seed, descs, own, models, level_note_assumptions, t0, hang_is_violation=False,
             trace_module="TraceIR.tla", trace_cfg="TraceIR.cfg", driver_of=None, extra_cov=None, level="model_checking",
-            extra_stages=None, neg_models=None):
+            extra_stages=None, neg_models=None, proofs=None):
     known = V.load_known()
     wd = V.workdir(prop)
     stages = [dict(descs=descs, trace_module=trace_module, trace_cfg=trace_cfg, driver_of=driver_of or P.driver_of)] + (extra_stages or [])
@@ -73,11 +73,20 @@ def ir_flow(prop, tier, seed, descs, own, models, level_note_assumptions, t0, ha
         nres.append(r)
         if not r["violated"]:
             raise V.Infra("negative control %s was not rejected by TLC: the design model is vacuous" % cfg)
+    # ---- unbounded obligations (Apalache): (spec, invariant, expected to hold?)
+    pres = []
+    for (spec_rel, inv, expect) in (proofs or []):
+        r = V.run_apalache(spec_rel, inv, expect)
+        log("[proof] %-28s %-10s %s (%.0fs)" % (spec_rel, inv, ("proved" if r["proved"] else "refuted" if r["refuted"] else "NO RESULT"), r["wall"]))
+        pres.append(r)
+        if not r["as_expected"]:
+            log(r["tail"])
+            raise V.Infra("Apalache obligation %s/%s did not come out as expected" % (spec_rel, inv))
     # ---- executions of the real code
     dres, tres = [], []
     for si, st in enumerate(stages):
         wds = wd if si == 0 else V.workdir("%s_s%d" % (prop, si))
-        d1, t1 = ir_execute(prop, st["descs"], wds, trace_module=st["trace_module"], trace_cfg=st["trace_cfg"], driver_of=st["driver_of"])
+        d1, t1 = ir_execute(prop, st["descs"], wds, trace_module=st["trace_module"], trace_cfg=st["trace_cfg"], driver_of=st["driver_of"], env=st.get("env"))
         for x in d1:
             x["stage"] = si
         for x in t1:
@@ -97,6 +106,10 @@ def ir_flow(prop, tier, seed, descs, own, models, level_note_assumptions, t0, ha
             ds, n, complete = V.trace_runs(r["file"]) if os.path.exists(r["file"]) else ([], 0, True)
             d = ds[-1] if ds else (r["descs"][0] if r["descs"] else "?")
             violations.append(("Hang", d, r["file"], len(ds), dict(r="Hang", l=n), r["stage"]))
+        elif r["rc"] == 66 and stages[r["stage"]].get("sanitizer"):
+            # a sanitizer report (exit code chosen through *SAN_OPTIONS=exitcode=66)
+            d = r["descs"][0] if r["descs"] else "?"
+            violations.append((stages[r["stage"]]["sanitizer"], d, r["file"], 1, dict(r=stages[r["stage"]]["sanitizer"], l=0, err=r["err"][-1500:]), r["stage"]))
         elif r["rc"] != 0:
             raise V.Infra("driver %s exited with %d: %s" % (r["binary"], r["rc"], r["err"][-800:]))
     for t in tres:
@@ -131,9 +144,11 @@ def ir_flow(prop, tier, seed, descs, own, models, level_note_assumptions, t0, ha
         ok_again = False
         st = stages[stg]
         try:
-            dres2, tres2 = ir_execute(prop, [d], wd2, nproc=1, timeout=300, trace_module=st["trace_module"], trace_cfg=st["trace_cfg"], driver_of=st["driver_of"])
+            dres2, tres2 = ir_execute(prop, [d], wd2, nproc=1, timeout=300, trace_module=st["trace_module"], trace_cfg=st["trace_cfg"], driver_of=st["driver_of"], env=st.get("env"))
             if rule == "Hang":
                 ok_again = any(r["timeout"] for r in dres2)
+            elif st.get("sanitizer") == rule:
+                ok_again = any(r["rc"] == 66 for r in dres2)
             else:
                 ok_again = any(hh["r"] == rule for t in tres2 for hh in t.get("hits", []))
         except Exception as e:  # noqa
@@ -163,6 +178,7 @@ def ir_flow(prop, tier, seed, descs, own, models, level_note_assumptions, t0, ha
         samples=[x for st in stages for x in st["descs"][:3]][:6],
         design_models=[dict(cfg=m["cfg"], states=m["states"], generated=m["generated"], wall_s=round(m["wall"], 1)) for m in mres],
         negative_controls=[dict(cfg=m["cfg"], rejected=m["violated"]) for m in nres],
+        apalache_obligations=[dict(spec=r["spec"], inv=r["inv"], proved=r["proved"], refuted=r["refuted"], wall_s=round(r["wall"], 1)) for r in pres],
         trace_events=nlines, trace_spec=sorted(set(st["trace_module"] for st in stages)), monitors=sorted(own),
         coverage_counters=cov, other_rule_hits=others,
         known_findings_seen=[dict(rule=r, descriptor=d) for r, d, _ in knownhits],
@@ -303,8 +319,19 @@ def check_C13(tier, seed, t0):
     neg = [("MC_NevAdj.tla", "NevAdj_neg.cfg", 4)]
     table = dict(descs=["mode=nevadj;nfull=%d;nwell=%d" % ((4, 10) if tier == "quick" else (6, 14))],
                  trace_module="TraceFn.tla", trace_cfg="TraceFn.cfg", driver_of=fn_driver)
-    return ir_flow("C13", tier, seed, descs, C13_RULES + ["NevAdjRange", "ShiftLoopSafeFromTable", "NevAdjNoIndexAssert"], models, COMMON_ASSUME, t0,
-                   hang_is_violation=True, extra_stages=[table], neg_models=neg)
+    stages = [table]
+    own = C13_RULES + ["NevAdjRange", "ShiftLoopSafeFromTable", "NevAdjNoIndexAssert"]
+    if tier == "thorough":
+        # auxiliary observation: the traced harness under AddressSanitizer + UBSan (a report ends the process: exit code 66 or an Abort line)
+        san = [d for d in P.degenerate(random.Random(5100 + seed), 400, types=("d",)) + P.breakdown_descs(random.Random(5200 + seed), 60, types=("d",), meas=0)
+               if P.driver_of(d) in ("drv_ir_sym_d", "drv_ir_gen_d")]
+        stages.append(dict(descs=san, trace_module="TraceIR.tla", trace_cfg="TraceIR.cfg", driver_of=lambda d: P.driver_of(d) + "_asan",
+                           env={"ASAN_OPTIONS": "exitcode=66:detect_leaks=0", "UBSAN_OPTIONS": "print_stacktrace=1"}, sanitizer="SanitizerReport"))
+        own = own + ["SanitizerReport"]
+    proofs = [("apa/NevAdjustApa.tla", "RangeInv", True), ("apa/NevAdjustApa.tla", "TooStrong", False)]
+    return ir_flow("C13", tier, seed, descs, own, models, COMMON_ASSUME + [
+        "Apalache 0.58 discharges the range of both nev_adjusted variants over unbounded integers (length 0, Init => Inv); the formulas are tied to the code by the extracted table (nevadj_mismatch = 0)"], t0,
+                   hang_is_violation=True, extra_stages=stages, neg_models=neg, proofs=proofs)
 
 
 def check_C12(tier, seed, t0):
@@ -357,7 +384,7 @@ def check_C11(tier, seed, t0):
         trace_module="TraceKernel.tla", trace_cfg="TraceKernel.cfg", driver_of=lambda d: "drv_matop", extra_cov=dict(exhaustive=True))
 
 
-FIXED_AUX = {"C17": ["mode=lobpcg;count=2;seed=5;kfix=1"]}
+FIXED_AUX = {"C17": ["mode=lobpcg;count=1;seed=5;kfix=1"]}
 
 
 def aux_flow(prop, tier, seed, t0, mode, count, own, models, neg, notes):
@@ -399,13 +426,19 @@ def check_C20(tier, seed, t0):
     own = ["ConcurrentTraceIdentical", "ConcurrentResultsIdentical", "Abort", "UnknownRow"]
     models = [("Threads.tla", "Threads_own.cfg", 2), ("Threads.tla", "Threads_sharedprod.cfg", 2)]
     neg = [("Threads.tla", "Threads_sharedsolve.cfg", 2)]
+    extra = []
+    if tier == "thorough":
+        # auxiliary observation: the same driver under ThreadSanitizer (a report ends the process with exit code 66)
+        extra = [dict(descs=["mode=mt;rounds=8;seed=%d" % (seed * 10 + 7)], trace_module="TraceAux.tla", trace_cfg="TraceAux.cfg", driver_of=lambda d: "drv_mt_tsan",
+                      env={"TSAN_OPTIONS": "exitcode=66"}, sanitizer="ThreadSanitizerReport")]
+        own = own + ["ThreadSanitizerReport"]
     return ir_flow("C20", tier, seed, descs, own, models, COMMON_ASSUME[:1] + [
         "design model: all interleavings of 3 instances over the location map of the code's mutable state; own operators and one shared product wrapper are conflict free, "
         "a shared shift-solve wrapper is a conflict (negative control)",
         "runs: 2/4/8/16 threads, private operators or one shared (previously unused) Dense/Sparse Sym/Gen product wrapper, generic and breakdown-heavy (low rank) jobs, "
         "randomised start; every job's hook-event stream digest and result digest must equal those of the same job run alone",
         "formal data-race freedom (a race that writes equal values) is not decided by value traces; the thorough tier additionally runs the driver under ThreadSanitizer"], t0,
-        trace_module="TraceAux.tla", trace_cfg="TraceAux.cfg", driver_of=lambda d: "drv_mt", neg_models=neg)
+        trace_module="TraceAux.tla", trace_cfg="TraceAux.cfg", driver_of=lambda d: "drv_mt", neg_models=neg, extra_stages=extra)
 
 
 def check_C10(tier, seed, t0):
